@@ -131,7 +131,7 @@ JNfaOp(e) ==
      \cup (IF e.name = "concatenation" THEN {}
            ELSE Bad("new_state_fresh", ~(operands \subseteq C.Q /\ Cardinality(C.Q) = Cardinality(operands) + 1)))
 
-(* C19 inside a replayed session: objects that existed before a call are the same after it *)
+(* C19: objects that existed before a call are the same after it *)
 JOperandsKept(e) == Bad("operands_unchanged", e.before # e.after)
 
 (* (G) a behaviour of Session.tla replayed into the real code: the projected   *)
